@@ -279,6 +279,177 @@ theorem C06_filter_per_objective (p : Policy) (hp : p ≠ .ignore) (mf m : Nat)
     | none => exact ⟨_, rfl, by simp [maxCols_length m _ hne hgood]⟩
     | some v => exact ⟨v, rfl, hm v hy⟩
 
+/-! ### the text of a failure label: every string with a leading `F` -/
+
+/-- **C06 (any label starting with `F` is the marker).**  Whatever follows the leading `F` — nothing,
+no underscore, spaces, punctuation, any unicode, any length — `CBO._tell` treats the objective
+exactly like `"F"`: it is told to the optimizer as the marker under the imputing policies and left
+out only under `ignore`; it is never silently dropped for its text. -/
+theorem C06_any_F_label_is_the_marker (p : Policy) (s : String) (hs : firstIsF s = true) :
+    cboTellOne p (.str s) = .ok (failOut p) ∧ (p ≠ .ignore → cboTellOne p (.str s) = .ok (some Y.fail)) := by
+  have h : cboTellOne p (.str s) = .ok (failOut p) := by
+    simp [cboTellOne, firstIsF_ne_empty s hs, hs]
+  refine ⟨h, fun hp => ?_⟩
+  rw [h]; simp [failOut, hp]
+
+example : firstIsF "FAILED" = true ∧ firstIsF "Fail: out of memory" = true ∧ firstIsF "F-timeout" = true ∧
+    firstIsF "F" = true ∧ firstIsF "F é✓" = true := by decide
+
+/-- labels without an underscore, with spaces, punctuation, unicode, `F` alone: same history -/
+example : HistEq
+    [([.str "FAILED", .num 1], [3]), ([.str "Fail: out of memory"], [3]), ([.num 2, .str "F"], [3, 4])]
+    [([.str "F_x", .num 1], [3]), ([.str "F-timeout"], [3]), ([.num 2, .str "F é✓ "], [3, 4])] := by
+  refine ⟨⟨Or.inr ⟨_, _, rfl, rfl, by decide, by decide⟩, Or.inl rfl, trivial⟩, rfl,
+          ⟨Or.inr ⟨_, _, rfl, rfl, by decide, by decide⟩, trivial⟩, rfl,
+          ⟨Or.inl rfl, Or.inr ⟨_, _, rfl, rfl, by decide, by decide⟩, trivial⟩, rfl, trivial⟩
+
+/-- `'FAILED'` is told as the marker under an imputing policy (a test for exactly `F` / `F_<reason>`
+would drop it: the witness the relabelling oracle looks for on the real code), dropped under `ignore` -/
+example : (match cboTell .max [.str "FAILED", .num 1] with | .ok ys => some ys | .error _ => none) =
+    some [Y.fail, Y.val (.fin (-1))] := by decide +kernel
+example : (match cboTell .ignore [.str "FAILED", .num 1] with | .ok ys => some ys | .error _ => none) =
+    some [Y.val (.fin (-1))] := by decide +kernel
+
+/-! ### two evaluators on one storage -/
+
+/-- **C06 (the storage holds the rewritten objective).**  What `_on_done` writes to the storage is
+what it leaves in the local job — the objective after the non-finite rewrite — and contains no
+non-finite number, whatever the run-function returned. -/
+theorem C06_stored_is_marked (o : Val) :
+    (onDoneStore o).stored = (onDoneStore o).job ∧ noNonFin (onDoneStore o).stored = true :=
+  ⟨rfl, onDone_noNonFin o⟩
+
+/-- **C06 (another search on the same storage is told the same thing).**  For every objective that
+is not dict-valued: the job rebuilt by `gather_other_jobs_done` of another evaluator carries exactly
+the objective the first evaluator's own search was told (nothing at all when it was `None`), so what
+`CBO._tell` of the second search hands to its optimizer is finite or the marker, for every policy. -/
+theorem C06_other_search_no_nonfinite (p : Policy) (o o2 : Val) (y : Y) (hnd : NotDict o)
+    (hview : otherObjective (onDoneStore o).stored = .ok (some o2))
+    (hy : cboTellOne p o2 = .ok (some y)) :
+    o2 = (onDoneStore o).job ∧ y.isFinite = true := by
+  have hn : o ≠ Val.none := by
+    intro h; subst h; rw [otherObjective_stored_none] at hview; simp at hview
+  have h1 := otherObjective_stored o hnd hn
+  rw [h1] at hview
+  have h2 : onDoneObjective o = o2 := by simpa using hview
+  subst h2
+  exact ⟨rfl, cboTellOne_finite p _ y (onDone_noNonFin o) hy⟩
+
+/-- the history the second search is told: per `tell`, its own results after `_on_done` followed
+by the results of the other evaluator read back from the storage -/
+def secondHistory : List (List Val × List Val × List Rat) → Except StdErr (List (List Val × List Rat))
+  | [] => .ok []
+  | (loc, oth, sc) :: r =>
+    match otherView (oth.map (fun o => (onDoneStore o).stored)) with
+    | .error e => .error e
+    | .ok v =>
+      match secondHistory r with
+      | .error e => .error e
+      | .ok hr => .ok ((loc.map onDoneObjective ++ v, sc) :: hr)
+
+theorem RawOK_notDict (o : Val) (h : RawOK o) : NotDict o ∧ o ≠ Val.none := by
+  cases o <;> simp_all [RawOK, NotDict]
+
+theorem secondHistory_raw :
+    ∀ (h : List (List Val × List Val × List Rat)), (∀ b ∈ h, ∀ o ∈ b.2.1, RawOK o) →
+      secondHistory h = .ok (afterDone (h.map (fun b => (b.1 ++ b.2.1, b.2.2))))
+  | [], _ => rfl
+  | (loc, oth, sc) :: r, hr => by
+    have ih := secondHistory_raw r (fun b hb => hr b (by simp [hb]))
+    have hv := otherView_raw oth (fun o ho => RawOK_notDict o (hr (loc, oth, sc) (by simp) o ho))
+    simp only [secondHistory, hv, ih, afterDone, List.map_cons, List.map_append]
+
+/-- **C06 (two searches on one storage: totality).**  A search attached to a storage another
+evaluator reports to — any interleaving of its own results and of the other evaluator's, any
+failure kind on either side (`'F…'`, NaN, ±inf, a non-finite value inside a tuple), any policy,
+any length: the history read through the storage is the history after `_on_done`, and the tell
+pipeline of the second search runs to the end (unless the numerical environment breaks its
+contract); in particular no NaN/inf and no marker reaches its surrogate. -/
+theorem C06_two_searches_total (p : Policy) (mf : Nat) (n0 : Int) (hn0 : 1 ≤ n0)
+    (h : List (List Val × List Val × List Rat))
+    (hloc : ∀ b ∈ h, ∀ o ∈ b.1, RawOK o) (hoth : ∀ b ∈ h, ∀ o ∈ b.2.1, RawOK o) :
+    ∃ h2, secondHistory h = .ok h2 ∧
+      ((∃ r, runTells p mf ⟨n0, []⟩ h2 = .ok r) ∨ runTells p mf ⟨n0, []⟩ h2 = .error (.inr .envContract)) := by
+  refine ⟨_, secondHistory_raw h hoth, ?_⟩
+  apply C06_total_any_length p mf n0 hn0
+  intro b hb o ho
+  simp only [List.mem_map] at hb
+  obtain ⟨b0, hb0, rfl⟩ := hb
+  simp only [List.mem_append] at ho
+  rcases ho with ho | ho
+  · exact hloc b0 hb0 o ho
+  · exact hoth b0 hb0 o ho
+
+/-- non-vacuity: the first evaluator reports `nan`, `(1, -inf)`, `'FAILED'` and a success; the
+second search has one success of its own -/
+def shared0 : List (List Val × List Val × List Rat) :=
+  [([], [.nonfin .nan, .list [.num 1, .nonfin .negInf]], []),
+   ([.list [.num 2, .num 3]], [.str "FAILED", .list [.num 1, .num 1]], [4, 5])]
+
+example : (match secondHistory shared0 with | .ok h2 => some (h2.map (·.1)) | .error _ => none) =
+    some [[.str "F", .str "F"], [.list [.num 2, .num 3], .str "FAILED", .list [.num 1, .num 1]]] := by
+  decide +kernel
+
+example : (match secondHistory shared0 with
+    | .ok h2 => (match runTells .max 100 ⟨1, []⟩ h2 with | .ok r => some r.2 | .error _ => none)
+    | .error _ => none) = some [[5, 5, 4, 5, 5]] := by
+  decide +kernel
+
+/-- the hypotheses of `C06_two_searches_total` hold for `shared0` -/
+example : (∀ b ∈ shared0, ∀ o ∈ b.1, RawOK o) ∧ (∀ b ∈ shared0, ∀ o ∈ b.2.1, RawOK o) := by
+  refine ⟨?_, ?_⟩ <;> intro b hb o ho <;>
+    simp only [shared0, List.mem_cons, List.mem_nil_iff, or_false] at hb <;>
+    rcases hb with rfl | rfl <;> simp at ho
+  · subst ho; intro v hv; simp at hv; rcases hv with rfl | rfl <;> exact Or.inl ⟨_, rfl⟩
+  · rcases ho with rfl | rfl
+    · trivial
+    · intro v hv; simp at hv; rcases hv with rfl | rfl
+      · exact Or.inl ⟨_, rfl⟩
+      · exact Or.inr ⟨_, rfl⟩
+  · rcases ho with rfl | rfl
+    · show firstIsF "FAILED" = true; decide
+    · intro v hv; simp at hv; rcases hv with rfl | rfl <;> exact Or.inl ⟨_, rfl⟩
+
+/-- the hypotheses of `C06_other_search_no_nonfinite` are satisfiable: a `nan` reported by the first
+evaluator is read back as `"F"` and told as the marker -/
+example : NotDict (.nonfin .nan) ∧ otherObjective (onDoneStore (.nonfin .nan)).stored = .ok (some (.str "F")) ∧
+    cboTellOne .max (.str "F") = .ok (some Y.fail) := by
+  refine ⟨trivial, rfl, ?_⟩
+  exact (C06_any_F_label_is_the_marker .max "F" (by decide)).2 (by decide)
+
+/-- the other order of the two blocks of `_on_done` ("persist first, then post-process"): the
+storage keeps the raw `nan`, the second search's pipeline hands it to the surrogate -/
+example : (onDoneStoreEarly (.nonfin .nan)).stored = .nonfin .nan ∧
+    (match runTells .max 100 ⟨1, []⟩ [([(onDoneStoreEarly (.nonfin .nan)).stored, .num 1], [1])] with
+      | .ok _ => none | .error e => some e) = some (.inr .nonFiniteToSurrogate) := by
+  decide +kernel
+
+/-! ### progress after failures: the ask cache -/
+
+/-- **C06 (the search moves on after a batch of failures).**  In any sequence of `CBO.ask` /
+`CBO.tell` — any results, any policy, in particular batches in which every result is an ignored
+failure, so that nothing is told to the optimizer — the proposals are those of an optimizer that
+has no cache at all (`specCache`): a batch of several points is the one the optimizer computes at
+that ask, a single point is the one computed by the last tell (or refreshed by the ask); no ask
+ever returns a batch cached by an earlier ask, so the configurations of a failed batch are not
+handed out again from the cache. -/
+theorem C06_ask_never_cached {κ β : Type} [DecidableEq κ] (next0 : β) (ops : List (CacheOp κ β)) :
+    runCache (AskCache.init next0) ops = (specCache false next0 ops).map (fun f => (f, false)) :=
+  runCache_spec ops (AskCache.init next0) (by intro _; rfl)
+
+/-- batches are numbered by the moment they are computed: after the all-ignored batch (nothing told)
+and after two asks in a row, the batch / the single point is a new one -/
+example : runCache (κ := Nat) (β := Nat) (AskCache.init 0)
+    [.ask false 2 10 11, .tell .ignore [.str "F_x", onDoneObjective (.nonfin .nan)] 20, .ask false 2 30 31,
+     .ask false 2 40 41, .tell .max [.num 1, .str "FAILED"] 50, .ask true 1 60 61, .ask true 1 70 71] =
+    [(10, false), (30, false), (40, false), (50, false), (71, false)] := by
+  decide +kernel
+
+/-- the optimizer alone (no `update_next` / `tell` between two asks of the same size — as when
+`update_next` kept the cache): the second batch is the cached one -/
+example : (optAsk (κ := Nat) (β := Nat) (optAsk (AskCache.init 0) false 2 10).1 false 2 12).2 = (10, true) := by
+  decide +kernel
+
 /-! ### non-vacuity and regression witnesses -/
 
 /-- a history with a failure first, a NaN inside a tuple, and successes -/
